@@ -233,6 +233,40 @@ def execute_malformed(case):
     return {"ok": not fails, "failures": fails, "outcome": "malformed-ok" if not fails else "malformed-report", "nontrivial": True, "n": n}
 
 
+def execute_numbering(case):
+    """file roles follow the ProductFileNameNN numbering (01 volume directory, 02 leader, 03.. images, last trailer) whatever the
+    names look like: every rotation / transposition of typed names over the numbers, through summary.open_summary"""
+    env.import_lib()
+    from ceos_alos2.summary import open_summary
+
+    spec = treecheck.spec_from_case({"spec": base_spec(case["n_images"])})
+    base = synth.summary_lines(spec)
+    key = next(l for l in base if "ProductFileName01" in l).split("01=")[0]
+    names = [l.split('="', 1)[1][:-1] for l in base if "ProductFileName" in l and not l.startswith("Pdi_Cnt")]
+    perm = case["perm"]
+    assigned = [names[j] for j in perm]
+    lines = [l for l in base if "ProductFileName" not in l or l.startswith("Pdi_Cnt")]
+    numbered = [f'{key}{i + 1:02d}="{n}"' for i, n in enumerate(assigned)]
+    if case.get("shuffle"):
+        numbered = numbered[::-1]
+    lines = lines[:5] + numbered + lines[5:]
+
+    class M(dict):
+        root = "x"
+
+    fails = []
+    try:
+        g = open_summary(M({"summary.txt": ("\n".join(lines) + "\n").encode()}), "summary.txt")
+        attrs = g["product_information"]["data_files"].attrs
+        got = {k: (list(v) if isinstance(v, (list, tuple)) else v) for k, v in attrs.items()}
+        want = {"volume_directory": assigned[0], "sar_leader": assigned[1], "sar_imagery": assigned[2:-1], "sar_trailer": assigned[-1]}
+        if got != want:
+            fails.append({"sig": {"kind": "file-roles"}, "detail": f"files numbered {assigned}: roles {got}, the numbering says {want}", "case": {**case, "fn": "execute_numbering"}})
+    except Exception as e:
+        fails.append({"sig": {"kind": "file-roles-raises", "exc": type(e).__name__}, "detail": f"files numbered {assigned}: {type(e).__name__}: {str(e)[:100]}", "case": {**case, "fn": "execute_numbering"}})
+    return {"ok": not fails, "failures": fails, "outcome": "numbering-ok" if not fails else fails[0]["sig"]["kind"], "nontrivial": True}
+
+
 def execute_malformed_full(case):
     """a corrupted summary inside a complete product, through open_alos2"""
     spec = treecheck.spec_from_case({"spec": base_spec()})
@@ -257,7 +291,7 @@ def run(res, tier, seed):
         " reversal; all permutations within each section (<=5 lines); 3..10 product files (also reversed); 1..3 shape indices -"
         " each through open_alos2 and compared with the summary reference model. Malformed: all 4095 non-empty subsets of a 12-line"
         " summary x 17 corruption kinds (7 of them with non-ASCII letters / underscore / quote / invisible characters incl. a byte order mark) + all kind pairs on 2-subsets through summary.open_summary; one kind per subset size and all"
-        " single lines through open_alos2. Every corrupted line is rejected by an independent line recogniser (asserted)."
+        " single lines through open_alos2. File roles: every rotation / adjacent transposition / reversal of the typed names over the ProductFileNameNN numbers for 4, 5 and 7 files. Every corrupted line is rejected by an independent line recogniser (asserted)."
     )
     res.assumptions = ["values are printable ASCII without line separators", "the numbering base of reported lines is not fixed by the property (0 or 1 accepted, but one base per report)"]
     core.run_cases(res, __name__, plan(tier))
@@ -278,4 +312,13 @@ def run(res, tier, seed):
     for idx, case, out in core.pool_map(__name__, "execute_malformed_full", full, chunksize=2):
         res.record(case, out, order=2 * 10**6 + idx)
     res.extra["malformed_texts_via_summary_seam"] = n
+    numbering = []
+    for n_images in (1, 2, 4):
+        k = n_images + 3
+        perms = [list(range(k))] + [list(range(r, k)) + list(range(r)) for r in range(1, k)] + [[*range(i), i + 1, i, *range(i + 2, k)] for i in range(k - 1)] + [list(range(k))[::-1]]
+        for perm in perms:
+            for shuffle in (False, True):
+                numbering.append({"n_images": n_images, "perm": perm, "shuffle": shuffle})
+    for idx, case, out in core.pool_map(__name__, "execute_numbering", numbering, chunksize=8):
+        res.record({**case, "fn": "execute_numbering"}, out, order=3 * 10**6 + idx)
     res.extra["malformed_texts_via_open_alos2"] = len(full)
